@@ -19,6 +19,7 @@ sys.path.insert(0, VERIF)
 from nlv.checks import c05
 
 BAD = c05.BAD
+DROPPED_VARIANTS = {"for variable after loop"}     # catalogue entries removed after the dumps were taken
 OUT = os.path.join(VERIF, "findings", "C05")
 
 
@@ -36,6 +37,8 @@ def main():
     for p in sys.argv[1:]:
         for l in open(p):
             m = json.loads(l)
+            if m["variant"] in DROPPED_VARIANTS:
+                continue
             for i, o in enumerate(m["obs"]):
                 ck = (m["rule"], m["context"], o["tool"])
                 totals[ck] = totals.get(ck, 0) + 1
@@ -73,6 +76,14 @@ def main():
                     f.write("\n".join(difflib.unified_diff(a, c, "bases/%s.nano" % m["base"], "p.nano", lineterm="", n=2)) + "\n")
                 written[wkey] = wname
             wname = written[wkey]
+        elif m.get("files"):
+            # only seen in a generated base: keep the whole program
+            d = "cells/%s__%s__%s_gen" % (rule, context.replace("@", "_at_"), tool)
+            os.makedirs(os.path.join(OUT, d), exist_ok=True)
+            for fn, text in m["files"].items():
+                with open(os.path.join(OUT, d, fn), "w") as f:
+                    f.write(text)
+            wname = d + "/p.nano"
         new = " // ".join(m["new"])[:120] if m["new"] else "deleted: " + " // ".join(m["old"])[:100]
         what = "rule '%s' in context '%s': `%s` %s (%s; %s) e.g. `%s` in base %s line %d [%d of %d sites of the full site pool]" % (
             rule, context, c05.CMD[tool], cls,
